@@ -20,6 +20,7 @@ EXTENDS Integers, Sequences, FiniteSets, TLC, Json
 CONSTANTS Family, D,
           Lats,         \* latencies used by "latency" / "instant"
           DMinNeg, DMax, \* instant distances -DMinNeg..DMax ("instant"; TLC cfg files have no negative literals)
+          Wraps,        \* fast-forward amounts used to reach the wrap of the 16 bit event counter ("instant")
           Small,        \* TRUE: reduced parameter sets (quick tier)
           NCfg          \* number of run-time switchable latency configurations of the variant (1 if none)
 
@@ -38,6 +39,7 @@ NoMap     == <<0, 0, 0, 0, 0>>
 Conn(ws, wo, int, lat, to, map, hop, sca, x0) == <<"cconnect", ws, wo, int, lat, to>> \o map \o <<hop, sca, x0>>
 Step(lost, flags, nexch) == <<"step", lost, flags, nexch>>
 
+Max(a, b) == IF a > b THEN a ELSE b
 Do(op)   == hist' = Append(hist, op)
 DoAll(s) == hist' = hist \o s
 
@@ -116,7 +118,7 @@ FlagSet == {0, 1, 2, 4, 8, 16, 32}      \* none, unack, rx not empty, tx not emp
 
 LatencyNext ==
     \/ /\ stage = "init"
-       /\ \E lat \in Lats, mp \in {FullMap, SparseMap}, c \in 0..(NCfg - 1) :
+       /\ \E lat \in Lats, mp \in (IF Small THEN {FullMap} ELSE {FullMap, SparseMap}), c \in 0..(NCfg - 1) :
              DoAll((IF NCfg > 1 THEN <<<<"latcfg", c>>>> ELSE <<>>)
                    \o <<Conn(2, 3, 24, lat, 300, mp, 9, 5, 0), Step(0, 0, 1), <<"q", "cccd", 1>>, Step(0, 0, 1), Step(0, 0, 1), Step(0, 0, 1)>>)
        /\ stage' = "conn" /\ n' = 0
@@ -139,24 +141,29 @@ IndSet(d) == { <<"q", "upd", d, 3, 5, 40, 1, 200, 1250>>,
                <<"q", "upd", d, 2, 0, 12, 0, 50, 0>>,
                <<"q", "chm", d>> \o OddMap,
                <<"q", "phy", d, 2, 2>> }
+IndSmall(d) == { <<"q", "upd", d, 3, 5, 40, 1, 200, 1250>>, <<"q", "chm", d>> \o OddMap, <<"q", "phy", d, 2, 2>> }
 
 InstantNext ==
     \/ /\ stage = "init"
-       /\ \E lat \in Lats : DoAll(<<Conn(2, 3, 24, lat, 300, FullMap, 11, 5, 0), Step(0, 0, 1), Step(0, 0, 1)>>)
+       /\ \E lat \in Lats : DoAll(<<Conn(2, 3, 24, lat, 300, FullMap, 11, 5, 0), Step(0, 0, 1), <<"q", "cccd", 1>>, Step(0, 0, 1), Step(0, 0, 1)>>)
        /\ stage' = "pre" /\ n' = 0
     \/ /\ stage = "pre"          \* optional: go near the wrap of the 16 bit event counter first
-       /\ \/ UNCHANGED hist
-          \/ \E k \in {65527, 65533} : Do(<<"ff", k>>)
-       /\ stage' = "q" /\ n' = 0
+       /\ \/ UNCHANGED hist /\ n' = 0
+          \/ \E k \in Wraps : Do(<<"ff", k>>) /\ n' = Max(0, D - 1)
+       /\ stage' = "q"
     \/ /\ stage = "q"
-       /\ \E d \in (0 - DMinNeg)..DMax : \E ind \in IndSet(d), probe \in {"none", "feat", "att"} :
+       /\ \E d \in (0 - DMinNeg)..DMax : \E ind \in (IF Small THEN IndSmall(d) ELSE IndSet(d)), probe \in (IF Small THEN {"none", "feat"} ELSE {"none", "feat", "att"}) :
              DoAll(<<ind>> \o (IF probe = "none" THEN <<>> ELSE <<<<"q", probe>>>>) \o <<Step(0, 2, 2)>>)
-       /\ stage' = "conn" /\ n' = 0
+       /\ stage' = (IF n < D THEN "conn" ELSE "tail")
+       /\ n' = n
     \/ /\ stage = "conn" /\ n < D
        /\ \/ \E lost \in {0, 1} : Do(Step(lost, 0, 1))
           \/ DoAll(<<<<"q", "feat">>, Step(0, 2, 1)>>)
-          \/ DoAll(<<<<"notify", 1, 4>>, <<"cancel">>>>)
-       /\ n' = n + 1 /\ stage' = IF n + 1 = D THEN "done" ELSE "conn"
+          \/ DoAll(<<<<"notify", 1, 4>>, <<"cancel">>, Step(0, 0, 1)>>)
+       /\ n' = n + 1 /\ stage' = IF n + 1 = D THEN "tail" ELSE "conn"
+    \/ /\ stage = "tail"
+       /\ DoAll([i \in 1..(DMax + 2) |-> Step(0, 0, 1)])
+       /\ stage' = "done" /\ n' = n
 
 -----------------------------------------------------------------------------
 GInit == hist = <<>> /\ stage = "init" /\ n = 0
